@@ -681,7 +681,7 @@ Section Limits.
           | match goal with
             | Hl : Lim ?sv, Hg : (_ && _)%bool = false |- _ =>
                 rewrite <- (lim_c sv Hl); unfold max_channels;
-                first [ right; apply room_guard; exact Hg | apply room_guard2; exact Hg ]
+                first [ right; apply room_guard; exact Hg | exact (room_guard2 _ _ _ Hg) ]
             end ].
 
   Lemma lim_delete_session k : ht Lim (delete_session k) (fun _ => Lim).
